@@ -48,8 +48,18 @@ type visitKey struct {
 	n int
 }
 
+// extent: the memory a (non-string) slice can reach: [p, p+cap*elemsize).
+type extent struct {
+	p, end uintptr
+	path   string
+	owner  string
+	root   int
+}
+
 type ptrScanner struct {
 	lo, hi uintptr // target address range [lo, hi)
+	exts   []extent
+	root   int // tag given to the extents collected from now on
 	hits   []aliasHit
 	seen   map[visitKey]bool
 	types  map[string]bool // struct types met (coverage)
@@ -163,6 +173,9 @@ func (s *ptrScanner) walk(v reflect.Value, path, owner string, depth int) {
 		}
 		es := v.Type().Elem().Size()
 		s.check(v.Pointer(), uintptr(v.Len())*es, uintptr(v.Cap())*es, path, owner)
+		if v.Cap() > 0 && es > 0 {
+			s.exts = append(s.exts, extent{v.Pointer(), v.Pointer() + uintptr(v.Cap())*es, path, owner, s.root})
+		}
 		if hasPointers(v.Type().Elem()) {
 			k := visitKey{v.Pointer(), v.Type(), v.Len()}
 			if s.seen[k] {
@@ -212,6 +225,35 @@ func keyStr(k reflect.Value) string {
 		return k.String()
 	}
 	return "?"
+}
+
+// overlaps returns the pairs of slices whose reachable memory (up to capacity)
+// intersects: two fields of one value, or of two separately decoded values,
+// that can write into each other (an append to one lands in the other; a table
+// or pool shared by every decoded value).  Strings are immutable and exempt.
+// crossOnly: only pairs from different roots.
+func (s *ptrScanner) overlaps(crossOnly bool) []string {
+	ex := append([]extent(nil), s.exts...)
+	sort.Slice(ex, func(i, j int) bool { return ex[i].p < ex[j].p })
+	var out []string
+	seen := map[string]bool{}
+	for i := 0; i < len(ex); i++ {
+		for j := i + 1; j < len(ex) && ex[j].p < ex[i].end; j++ {
+			if crossOnly && ex[i].root == ex[j].root {
+				continue
+			}
+			if ex[i].root == ex[j].root && ex[i].path == ex[j].path {
+				continue // the same slice met twice through one path (cycle guard)
+			}
+			k := ex[i].owner + " / " + ex[j].owner
+			if seen[k] {
+				continue
+			}
+			seen[k] = true
+			out = append(out, fmt.Sprintf("%s (%s) and %s (%s) reach the same memory", ex[i].owner, ex[i].path, ex[j].owner, ex[j].path))
+		}
+	}
+	return out
 }
 
 func scanGraph(root any, target []byte) *ptrScanner {
@@ -485,6 +527,13 @@ func (c *c08run) checkDecoded(line string, obj any, buf []byte, snap func() *sna
 	}
 	c.res.Tags[fmt.Sprintf("leaves<=%d", bucket(sc.leaves))]++
 	c.reportHits(line, "aliases-input", sc.hits)
+	// Reported in the evidence only, NOT a failure: C08 is about the source and the
+	// output buffer. Fields of one decoded value that share a backing array (an
+	// append to one lands in the next) exist on the unchanged tree: the vendor
+	// sub-options of DHCPv6 option 17 are views of one private copy.
+	for range sc.overlaps(false) {
+		c.res.Tags["info: sibling fields of a decoded value share a backing array"]++
+	}
 	s0 := snap()
 	full := buf[:cap(buf)]
 	for i, pat := range overwritePatterns(len(full), hashStr(line), other) {
@@ -509,6 +558,17 @@ func bucket(n int) int {
 
 // checkOutput runs (c) on a top-level message.
 func (c *c08run) checkOutput(line string, obj any, enc func() []byte, snap func() *snapshot) {
+	// the bytes a call returned are the caller's: later encodings (of this message,
+	// of a bigger one, of an unrelated one) leave them as they were (pooled or
+	// per-object scratch buffers handed out to the caller would not)
+	b0 := enc()
+	k0 := append([]byte(nil), b0...)
+	enc()
+	c08OtherEncodings(hashStr(line))
+	enc()
+	if !bytes.Equal(b0, k0) {
+		c.fail(line, "earlier-output-changed", "bytes returned by ToBytes changed after later ToBytes calls: "+firstDiff(hx(k0), hx(b0)))
+	}
 	s0 := snap()
 	b1 := enc()
 	keep := append([]byte(nil), b1...)
@@ -537,6 +597,17 @@ func (c *c08run) checkOutput(line string, obj any, enc func() []byte, snap func(
 		c.fail(line, "changed-after-output-write:ToBytes", "writing random bytes into the second result changed the third encoding")
 	}
 	runtime.KeepAlive(b1)
+}
+
+// c08OtherEncodings encodes unrelated values of every family, small and large.
+func c08OtherEncodings(h uint64) {
+	r := NewRng(h ^ 0x0e0e)
+	genMsg6(r, 2, false).ToBytes()
+	p := genPkt4(r, true)
+	p.ToBytes()
+	p.Options[43] = r.Bytes(900) // larger than any default scratch size
+	p.ToBytes()
+	genLabels(r).ToBytes()
 }
 
 func (c *c08run) count(line, tag string, accepted bool) {
